@@ -12,6 +12,7 @@ import Proofs.Models
 import Proofs.ModelsNested
 import Proofs.ModelsCnl
 import Proofs.ModelsOrdered
+import Proofs.ModelsDrop
 
 open Models
 
@@ -147,6 +148,23 @@ theorem cnl_mu_distribution (nests : List (CNest ℝ)) (mu : ℝ) (alts : List I
     ((∃ i ∈ alts, av i ≠ 0) → (alts.map (cnlMuP nests mu alts V av)).sum = 1) ∧
     (∀ c, av c = 0 → cnlMuP nests mu alts V av c = 0) :=
   mev_distribution alts V (cnlMuLogG nests mu V av) av
+
+/-! ## unavailable alternatives are irrelevant -/
+
+/-- removing the unavailable alternatives from the utilities and from the nests changes no
+probability: logit, nested (± mu), cross-nested (± mu).  (This is the "dropped-unavailable"
+relation the harness applies to the real outputs; it fails for a nest sum that forgets the
+availability condition.) -/
+theorem unavailable_irrelevant (nests : List (Nest ℝ)) (cn : List (CNest ℝ)) (mu : ℝ)
+    (alts : List Int) (V av : Int → ℝ) (c : Int) (hc : c ∈ alts) :
+    logitP (alts.filter (avail av)) V av c = logitP alts V av c ∧
+    nestedP (nests.map (restrictNest av)) (alts.filter (avail av)) V av c = nestedP nests alts V av c ∧
+    nestedMuP (nests.map (restrictNest av)) mu (alts.filter (avail av)) V av c =
+      nestedMuP nests mu alts V av c ∧
+    cnlP (cn.map (restrictCNest av)) (alts.filter (avail av)) V av c = cnlP cn alts V av c ∧
+    cnlMuP (cn.map (restrictCNest av)) mu (alts.filter (avail av)) V av c = cnlMuP cn mu alts V av c :=
+  ⟨logitP_drop alts V av c, nestedP_drop nests alts V av c hc, nestedMuP_drop nests mu alts V av c hc,
+   cnlP_drop cn alts V av c hc, cnlMuP_drop cn mu alts V av c hc⟩
 
 /-! ## log versions -/
 
